@@ -57,8 +57,8 @@ func H_C02_floats(t *verifrt.T) {
 		e = Unmarshal([]byte(`{"f":`+l.s+`}`), &b)
 		f3, f = a.F3, b.F
 	case 2:
-		e3 = NewDecoder(bytes.NewReader([]byte(l.s+" "))).Decode(&f3)
-		e = NewDecoder(bytes.NewReader([]byte(l.s+" "))).Decode(&f)
+		e3 = NewDecoder(bytes.NewReader([]byte(l.s + " "))).Decode(&f3)
+		e = NewDecoder(bytes.NewReader([]byte(l.s + " "))).Decode(&f)
 	}
 	t.Assert("float32-error-as-encoding-json", (e3 != nil) == l.err3)
 	t.Assert("float64-error-as-encoding-json", (e != nil) == l.err)
@@ -68,4 +68,62 @@ func H_C02_floats(t *verifrt.T) {
 	if !l.err && e == nil {
 		t.Assert("float64-value-as-encoding-json", math.Float64bits(f) == l.bits)
 	}
+}
+
+type vmPt struct {
+	X int8 `json:"X"`
+	Y int8 `json:"Y"`
+}
+
+type vmHolder2 struct {
+	M  map[string]vmPt   `json:"m"`
+	MP map[string]*vmPt  `json:"mp"`
+	MS map[string][]int8 `json:"ms"`
+}
+
+func init() {
+	VerifHarnesses["H_C02_map_values"] = H_C02_map_values
+}
+
+// map values are decoded into a fresh zero value and then stored (encoding/json):
+// a key that already exists in the destination map, or that occurs twice in the
+// document, does not merge old and new member values; pointer values are fresh
+// pointers; slice values are replaced.
+func H_C02_map_values(t *verifrt.T) {
+	d := int8(smallInt(t, "d"))
+	v := vmHolder2{}
+	old := &vmPt{7, 8}
+	if t.Choice("prepopulated", 2) == 1 {
+		v.M = map[string]vmPt{"a": {7, 8}, "z": {5, 6}}
+		v.MP = map[string]*vmPt{"a": old}
+		v.MS = map[string][]int8{"a": {1, 2, 3}}
+	}
+	pre := v.M != nil
+	var doc []byte
+	dup := t.Choice("duplicate-key", 2) == 1
+	num := refInt(nil, int64(d))
+	if dup {
+		doc = append(append([]byte(`{"m":{"a":{"X":1},"a":{"Y":`), num...), `}},"mp":{"a":{"X":1},"a":{"Y":2}},"ms":{"a":[9,9],"a":[4]}}`...)
+	} else {
+		doc = append(append([]byte(`{"m":{"a":{"Y":`), num...), `}},"mp":{"a":{"Y":2}},"ms":{"a":[4]}}`...)
+	}
+	err := Unmarshal(doc, &v)
+	t.Assert("accepted", err == nil)
+	if err != nil {
+		return
+	}
+	t.Assert("struct-value-not-merged", v.M["a"] == vmPt{0, d})
+	if pre {
+		t.Assert("other-keys-kept", verifrt.And(len(v.M) == 2, v.M["z"] == vmPt{5, 6}))
+		t.Assert("old-pointer-target-untouched", *old == vmPt{7, 8})
+	} else {
+		t.Assert("other-keys-kept", len(v.M) == 1)
+	}
+	p := v.MP["a"]
+	t.Assert("pointer-value-fresh", verifrt.And(p != nil, p != old))
+	if p != nil {
+		t.Assert("pointer-value-not-merged", *p == vmPt{0, 2})
+	}
+	s := v.MS["a"]
+	t.Assert("slice-value-replaced", verifrt.And(len(s) == 1, len(s) > 0 && s[0] == 4))
 }
